@@ -299,6 +299,13 @@ func (l *LinearFeeFunction) estimateFeeRate(
 		log.Infof("Conf target %v is greater than max block target, "+
 			"using min relay fee rate %v", confTarget, minFeeRate)
 
+		// Like the estimated fee rate below, the min relay fee rate
+		// must not exceed the ending fee rate, otherwise the fee
+		// function would start above its ceiling.
+		if minFeeRate > l.endingFeeRate {
+			minFeeRate = l.endingFeeRate
+		}
+
 		return minFeeRate, nil
 	}
 
@@ -308,6 +315,12 @@ func (l *LinearFeeFunction) estimateFeeRate(
 	estimatedFeeRate, err := fee.Estimate(l.estimator, l.endingFeeRate)
 	if err != nil {
 		return 0, err
+	}
+
+	// Estimate treats a max fee rate of zero as "no cap", so make sure the
+	// ending fee rate is respected in that case, too.
+	if estimatedFeeRate > l.endingFeeRate {
+		estimatedFeeRate = l.endingFeeRate
 	}
 
 	return estimatedFeeRate, nil
